@@ -3352,3 +3352,157 @@ async fn fork_that_overtakes_the_chain_takes_its_transactions_out_of_the_pool() 
     let mempool = t.mempool_lock.read().await;
     if !(!mempool.transactions.contains_key(&free_tx.signature)) { witness(format!("a transaction confirmed by a fork block that was stored first and joined the longest chain in a later reorganisation stays in the pool (and is bundled into the chain a second time) since commit e668c9f")); }
 }
+
+/// C04: a rejected block leaves the chain index exactly as it was — also when it was the first block the node was offered
+#[tokio::test]
+#[serial_test::serial]
+async fn rejected_first_block_leaves_the_node_without_a_block() {
+    #[allow(unused_imports)] use crate::core::util::crypto::generate_keys;
+    #[allow(unused_imports)] use crate::core::util::test::test_manager::test::TestManager;
+    #[allow(unused_imports)] use crate::core::defs::PrintForLog;
+    #[allow(unused_imports)] use crate::core::consensus::block::Block;
+    #[allow(unused_imports)] use crate::core::util::crypto::hash;
+    use crate::core::consensus::block::BlockType;
+    use crate::core::util::configuration::{
+        BlockchainConfig, Configuration, ConsensusConfig, PeerConfig, Server,
+    };
+
+    // the configuration of a node that has finished loading its (empty) block directory
+    #[derive(Debug)]
+    struct LoadedNodeConfig {
+        consensus: ConsensusConfig,
+        blockchain: BlockchainConfig,
+        peers: Vec<PeerConfig>,
+    }
+    impl Configuration for LoadedNodeConfig {
+        fn get_server_configs(&self) -> Option<&Server> {
+            None
+        }
+        fn get_peer_configs(&self) -> &Vec<PeerConfig> {
+            &self.peers
+        }
+        fn get_blockchain_configs(&self) -> &BlockchainConfig {
+            &self.blockchain
+        }
+        fn get_block_fetch_url(&self) -> String {
+            "".to_string()
+        }
+        fn is_spv_mode(&self) -> bool {
+            false
+        }
+        fn is_browser(&self) -> bool {
+            false
+        }
+        fn replace(&mut self, _config: &dyn Configuration) {}
+        fn get_consensus_config(&self) -> Option<&ConsensusConfig> {
+            Some(&self.consensus)
+        }
+    }
+    fn loaded_node_config() -> LoadedNodeConfig {
+        let mut blockchain = BlockchainConfig::default();
+        blockchain.initial_loading_completed = true;
+        LoadedNodeConfig {
+            consensus: ConsensusConfig {
+                genesis_period: 100,
+                heartbeat_interval: 100,
+                prune_after_blocks: 8,
+                max_staker_recursions: 3,
+                default_social_stake: 0,
+                default_social_stake_period: 60,
+            },
+            blockchain,
+            peers: vec![],
+        }
+    }
+    // a block as a peer hands it over
+    fn over_the_wire(block: &Block) -> Block {
+        Block::deserialize_from_net(&block.serialize_for_net(BlockType::Full)).unwrap()
+    }
+
+    // the chain of the peer : blocks 1 and 2
+    let mut peer = TestManager::default();
+    peer.initialize(10, 1_000_000_000).await;
+    let peer_block1 = peer.get_latest_block().await;
+    let peer_block2 = peer
+        .create_block(
+            peer_block1.hash,
+            peer_block1.timestamp + 120_000,
+            0,
+            0,
+            0,
+            true,
+        )
+        .await;
+    let peer_block2_hash = peer_block2.hash;
+    assert!(matches!(
+        peer.add_block(over_the_wire(&peer_block2)).await,
+        AddBlockResult::BlockAddedSuccessfully(_, true, _)
+    ));
+
+    // the offending block : the peer's block 1 under a signature that is not its creator's
+    let mut bad1 = over_the_wire(&peer_block1);
+    bad1.sign(&generate_keys().1);
+
+    // control : a fresh node that has finished loading starts its chain from the peer's block 2
+    {
+        let mut node = TestManager::default();
+        let configs = loaded_node_config();
+        let mut blockchain = node.blockchain_lock.write().await;
+        let mut mempool = node.mempool_lock.write().await;
+        assert!(blockchain.blockring.is_empty());
+        let result = blockchain
+            .add_block(
+                over_the_wire(&peer_block2),
+                &mut node.storage,
+                &mut mempool,
+                &configs,
+            )
+            .await;
+        assert!(
+            matches!(result, AddBlockResult::BlockAddedSuccessfully(_, true, _)),
+            "control : a fresh node must accept the peer's block 2 as its first block, got {:?}",
+            result
+        );
+        assert_eq!(blockchain.get_latest_block_hash(), peer_block2_hash);
+    }
+
+    // the same fresh node is first offered the offending block
+    let mut node = TestManager::default();
+    let configs = loaded_node_config();
+    let mut blockchain = node.blockchain_lock.write().await;
+    let mut mempool = node.mempool_lock.write().await;
+    assert!(blockchain.blockring.is_empty());
+
+    let result = blockchain
+        .add_block(bad1, &mut node.storage, &mut mempool, &configs)
+        .await;
+    assert!(
+        matches!(result, AddBlockResult::FailedNotValid),
+        "setup : the block with the foreign signature must be rejected, got {:?}",
+        result
+    );
+    // setup sanity : nothing of the block is kept
+    assert!(blockchain.blocks.is_empty());
+    assert!(blockchain.utxoset.is_empty());
+    assert_eq!(blockchain.get_latest_block_id(), 0);
+    assert_eq!(blockchain.get_latest_block_hash(), [0; 32]);
+    assert!(blockchain.blockring.get_block_hashes_at_block_id(1).is_empty());
+
+    let empty_after_rejection = blockchain.blockring.is_empty();
+    let result = blockchain
+        .add_block(
+            over_the_wire(&peer_block2),
+            &mut node.storage,
+            &mut mempool,
+            &configs,
+        )
+        .await;
+    if !(empty_after_rejection
+            && matches!(result, AddBlockResult::BlockAddedSuccessfully(_, true, _))) { witness(format!("the first block offered to a node without any block was rejected (FailedNotValid, 0 blocks stored, tip 0), yet the chain index no longer says empty: blockring.is_empty() = {} (before the call: true); because of that the node now answers {} to the peer's valid block 2 {}, which the same node accepts as its first block (BlockAddedSuccessfully, longest chain) when the rejected block was never offered - a rejected block must leave the chain index exactly as it was", empty_after_rejection, match &result {
+            AddBlockResult::FailedButRetry(_, fetch_previous, fetch_chain) => format!(
+                "FailedButRetry(fetch previous block = {}, fetch whole chain = {})",
+                fetch_previous, fetch_chain
+            ),
+            other => format!("{:?}", other),
+        }, peer_block2_hash.to_hex())); }
+}
